@@ -113,6 +113,12 @@ pub struct Case {
     /// the symbol has occurrences at one and the same byte range in two files
     #[serde(default)]
     pub same_range_two_files: bool,
+    /// the project uses alias-qualified enum literals, which the runtime compiler rejects
+    #[serde(default)]
+    pub analysis_only: bool,
+    /// occurrences of the chosen symbol according to the generator's model (file, start, end)
+    #[serde(default)]
+    pub model_occs: Vec<(usize, usize, usize)>,
 }
 
 /// Identifier tokens that stand inside a NAMESPACE ... END_NAMESPACE block of `text`.
@@ -416,6 +422,8 @@ pub fn case_from_tape(tape: &Tape) -> Case {
         clone_padded: p.clone_padded,
         dummy_decls: p.dummy_decls,
         same_range_two_files,
+        analysis_only: p.alias_literals > 0,
+        model_occs: sym_occs.iter().map(|o| (o.file, o.start, o.end)).collect(),
         in_namespace,
         ns_reopened_elsewhere: in_namespace
             && p.files.iter().enumerate().any(|(fi, f)| {
@@ -510,7 +518,16 @@ pub fn check_case(c: &Case, probe: &mut Probe, open: &dyn Fn(&str) -> bool) -> R
         }
         return Ok(());
     }
-    let r0 = match core::execute(&c.files, &c.trace) {
+    // Projects with enum literals qualified through an alias (`Shade#Red`) are accepted by
+    // the analysis but not by the runtime compiler ("invalid typed literal", recorded for
+    // C01/C02): they are judged without execution - diagnostics, rename-back, and, standing
+    // in for the behaviour clause, completeness of the edit set against the generator's
+    // occurrence model.
+    let r0 = match if c.analysis_only {
+        Ok(core::Run { states: Vec::new(), errors: Vec::new() })
+    } else {
+        core::execute(&c.files, &c.trace)
+    } {
         Ok(r) => r,
         Err(e) => {
             probe.label("discard=not_compilable");
@@ -557,6 +574,9 @@ pub fn check_case(c: &Case, probe: &mut Probe, open: &dyn Fn(&str) -> bool) -> R
     }
     if c.same_range_two_files {
         probe.label("symbol_has_occurrences_at_the_same_range_in_two_files");
+    }
+    if c.analysis_only {
+        probe.label("project_has_alias_qualified_enum_literals(analysis_only)");
     }
     if c.dummy_decls > 0 {
         probe.label(format!("dummy_declarations={}", match c.dummy_decls { 1..=20 => "1-20", 21..=50 => "21-50", _ => ">50" }));
@@ -626,6 +646,21 @@ pub fn check_case(c: &Case, probe: &mut Probe, open: &dyn Fn(&str) -> bool) -> R
     let (nf, shifted) = core::apply_edits(&c.files, &edits, c.file, c.offset);
     let d1 = core::diagnostics(&nf);
     core::compare_diags(&c.files, &d0, &nf, &d1, &c.old_name, &c.new_name).map_err(&ctx)?;
+    if c.analysis_only {
+        probe.excluded("C16-runtime-alias-qualified-enum-literal (project not executed; edit set checked against the occurrence model)");
+        probe.label("behaviour=skipped_analysis_only_project");
+        for (f, st, en) in &c.model_occs {
+            let covered = edits.get(f).is_some_and(|l| l.iter().any(|e| e.start == *st && e.end == *en));
+            if !covered {
+                return Err(ctx(format!(
+                    "occurrence {}..{} of the renamed symbol in file {f} ({:?}) is not rewritten (occurrence model of the generator; the project cannot be executed)",
+                    st,
+                    en,
+                    c.files[*f].get(*st..*en).unwrap_or("")
+                )));
+            }
+        }
+    } else {
     match core::execute(&nf, &c.trace) {
         Err(e) => {
             return Err(ctx(format!(
@@ -655,6 +690,7 @@ pub fn check_case(c: &Case, probe: &mut Probe, open: &dyn Fn(&str) -> bool) -> R
                 probe.label("behaviour=compared");
             }
         }
+    }
     }
     // rename back at the shifted position
     let back = catch(|| core::do_rename(&nf, c.file, shifted, &c.decl_name))
@@ -825,6 +861,8 @@ fn mkcase_cmd(args: &[String]) -> i32 {
         clone_padded: false,
         dummy_decls: 0,
         same_range_two_files: false,
+        analysis_only: false,
+        model_occs: vec![],
     };
     println!("{}", serde_json::to_string_pretty(&c).unwrap());
     0
